@@ -41,6 +41,7 @@ Lemma len_app {A} (a b : list A) : len (a ++ b) = len a + len b.
 Proof. unfold len. rewrite app_length. lia. Qed.
 Lemma len_rev {A} (a : list A) : len (rev a) = len a.
 Proof. unfold len. rewrite rev_length. reflexivity. Qed.
+Ltac lens := repeat first [rewrite len_app | rewrite len_cons | rewrite len_nil].
 
 Lemma list_get_app_r {A} (a b : list A) i : list_get (a ++ b) (len a + i) = list_get b i.
 Proof.
@@ -1107,4 +1108,162 @@ Proof.
   - intros. apply compile_set_eq. exact Hx.
   - cbn [cell_of cell_size]. lia.
   - intros rho r rho' HR. inversion HR; subst. eauto.
+Qed.
+
+(* ------------------------------------------------------------ if *)
+Definition vfalse (w : vcell) : bool := match w with VBool false => true | _ => false end.
+Lemma vfalse_iff w : vfalse w = true <-> w = VBool false.
+Proof. destruct w; cbn; try (split; intros; discriminate). destruct b; split; intros; try discriminate; reflexivity. Qed.
+
+Lemma compile_if3_eq f l tail c a b s :
+  compile_expression (S f) l tail (CPair IF_ (CPair c (CPair a (CPair b CNil)))) s =
+  (dom l1 <- compile_expression f l false c;
+   dom l4 <- compile_expression f (emit (emit_op l1 OJnt) (VPtr CAFEBEEF)) tail a;
+   dom l8 <- compile_expression f
+     (bc_patch (emit (emit_op l4 OJmp) (VPtr CAFEBEEF)) (bc_len (emit_op l1 OJnt))
+               (VPtr (bc_len (emit (emit_op l4 OJmp) (VPtr CAFEBEEF))))) tail b;
+   ret (bc_patch l8 (bc_len (emit_op l4 OJmp)) (VPtr (bc_len l8)))) s.
+Proof. unfold IF_. rewrite compile_if_eq. reflexivity. Qed.
+
+Lemma compile_if2_eq f l tail c a s :
+  compile_expression (S f) l tail (CPair IF_ (CPair c (CPair a CNil))) s =
+  (dom l1 <- compile_expression f l false c;
+   dom l4 <- compile_expression f (emit (emit_op l1 OJnt) (VPtr CAFEBEEF)) tail a;
+   ret (bc_patch
+          (emit (emit (emit_op
+             (bc_patch (emit (emit_op l4 OJmp) (VPtr CAFEBEEF)) (bc_len (emit_op l1 OJnt))
+                       (VPtr (bc_len (emit (emit_op l4 OJmp) (VPtr CAFEBEEF))))) OMovImmediate) VVoid) VAcc)
+          (bc_len (emit_op l4 OJmp))
+          (VPtr (bc_len (emit (emit (emit_op
+             (bc_patch (emit (emit_op l4 OJmp) (VPtr CAFEBEEF)) (bc_len (emit_op l1 OJnt))
+                       (VPtr (bc_len (emit (emit_op l4 OJmp) (VPtr CAFEBEEF))))) OMovImmediate) VVoid) VAcc))))) s.
+Proof. unfold IF_. rewrite compile_if_eq. reflexivity. Qed.
+
+(* the bytecode of the two patched jumps, in execution order *)
+Lemma if_layout l l1 l4 cc ca :
+  fwd l1 = fwd l ++ cc ->
+  fwd l4 = fwd (emit (emit_op l1 OJnt) (VPtr CAFEBEEF)) ++ ca ->
+  let l6 := emit (emit_op l4 OJmp) (VPtr CAFEBEEF) in
+  let l7 := bc_patch l6 (bc_len (emit_op l1 OJnt)) (VPtr (bc_len l6)) in
+  bc_len l6 = len (fwd l) + len cc + 2 + len ca + 2 /\
+  fwd l7 = fwd l ++ cc ++ [VOp OJnt; VPtr (bc_len l6)] ++ ca ++ [VOp OJmp; VPtr CAFEBEEF].
+Proof.
+  intros F1 F4 l6 l7.
+  assert (F6 : fwd l6 = (fwd l ++ cc ++ [VOp OJnt]) ++ VPtr CAFEBEEF :: (ca ++ [VOp OJmp; VPtr CAFEBEEF])).
+  { unfold l6. rewrite fwd_emit, fwd_emit_op, F4, fwd_emit, fwd_emit_op, F1. rewrite <- !app_assoc. reflexivity. }
+  assert (L6 : bc_len l6 = len (fwd l) + len cc + 2 + len ca + 2).
+  { rewrite bc_len_fwd, F6. lens. lia. }
+  split; [exact L6|].
+  unfold l7. rewrite fwd_patch.
+  - rewrite F6. rewrite list_set_app_mid.
+    + rewrite <- !app_assoc. reflexivity.
+    + rewrite bc_len_fwd, fwd_emit_op, F1, <- app_assoc. reflexivity.
+  - rewrite L6, bc_len_fwd, fwd_emit_op, F1. lens. lia.
+Qed.
+
+Lemma if_final l8 l4 pre cb :
+  fwd l8 = (pre ++ [VOp OJmp]) ++ VPtr CAFEBEEF :: cb ->
+  bc_len (emit_op l4 OJmp) = len pre + 1 ->
+  fwd (bc_patch l8 (bc_len (emit_op l4 OJmp)) (VPtr (bc_len l8))) = pre ++ [VOp OJmp; VPtr (bc_len l8)] ++ cb.
+Proof.
+  intros F8 L. rewrite fwd_patch.
+  - rewrite F8, list_set_app_mid; [rewrite <- app_assoc; reflexivity|]. rewrite L. lens. lia.
+  - rewrite L, (bc_len_fwd l8), F8. lens. lia.
+Qed.
+
+(* the run of a compiled conditional: test, JNT, one branch, (JMP) *)
+Lemma exec_if s0 p cc ca cb X Y rho rc rho1 r rho2 (else_branch : bool) :
+  X = p + len cc + 2 + len ca + 2 -> Y = X + len cb ->
+  exec_ok s0 p cc rho rc rho1 ->
+  is_false rc = else_branch ->
+  (if else_branch then exec_ok s0 X cb rho1 r rho2
+   else exec_ok s0 (p + len cc + 2) ca rho1 r rho2) ->
+  exec_ok s0 p (cc ++ [VOp OJnt; VPtr X] ++ ca ++ [VOp OJmp; VPtr Y] ++ cb) rho r rho2.
+Proof.
+  intros HX HY EXc Hrc EXb m lp bc Xm MI Hc Hs Hip G.
+  apply seg_app in Hs as [Hsc Hs]. apply seg_app in Hs as [Hsj Hs]. rewrite len2 in Hs.
+  apply seg_app in Hs as [Hsa Hs]. apply seg_app in Hs as [Hsm Hsb]. rewrite len2 in Hsb.
+  destruct (EXc m lp bc Xm MI Hc Hsc Hip G) as (n1 & m1 & St1 & Fr1 & MI1 & Hip1 & V1 & G1).
+  destruct (vrep_truth _ _ _ _ V1) as (w & Hw & Hwf).
+  pose proof (code_in_ext _ _ _ _ Hc (fr_ext _ _ Fr1)) as Hc1.
+  pose proof (step_jnt ob m1 lp _ bc X w Hc1 Hip1 Hsj Hw) as E2. fold (vfalse w) in E2.
+  set (m2 := with_ip m1 (lp, if vfalse w then X else p + len cc + 2)) in *.
+  assert (SM2 : same_mem m1 m2) by (repeat split).
+  pose proof (same_mem_frame _ _ SM2) as Fr2.
+  pose proof (same_mem_minv _ _ SM2 MI1) as MI2.
+  assert (Hc2 : code_in m2 lp bc) by (apply code_in_ip; exact Hc1).
+  assert (G2 : genv_rel rho1 m2) by (eapply genv_rel_frame; [exact Fr2|reflexivity|exact G1]).
+  assert (X2 : cext s0 m2) by (eapply cext_trans; [exact Xm|]; eapply cext_trans; [apply Fr1|apply Fr2]).
+  assert (Fr02 : frame m m2) by (eapply frame_trans; eassumption).
+  destruct else_branch.
+  - (* the test is #f: jump to the alternate *)
+    assert (Hv : vfalse w = true) by (apply vfalse_iff, Hwf; exact Hrc).
+    assert (Hip2 : ip m2 = (lp, X)) by (unfold m2; rewrite Hv; reflexivity).
+    replace (p + len cc + 2 + len ca + 2) with X in Hsb by lia.
+    destruct (EXb m2 lp bc X2 MI2 Hc2 Hsb Hip2 G2) as (n3 & m3 & St3 & Fr3 & MI3 & Hip3 & V3 & G3).
+    exists (n1 + 1 + n3)%nat, m3.
+    split; [eapply steps_trans; [eapply steps_trans; [exact St1|apply steps_one; exact E2]|exact St3]|].
+    split; [eapply frame_trans; eassumption|]. split; [exact MI3|].
+    split; [rewrite Hip3; f_equal; lens; lia|]. split; assumption.
+  - (* the test is not #f: fall through into the consequent, then JMP over the alternate *)
+    assert (Hv : vfalse w = false).
+    { destruct (vfalse w) eqn:Ev; [|reflexivity]. apply vfalse_iff, Hwf in Ev. congruence. }
+    assert (Hip2 : ip m2 = (lp, p + len cc + 2)) by (unfold m2; rewrite Hv; reflexivity).
+    destruct (EXb m2 lp bc X2 MI2 Hc2 Hsa Hip2 G2) as (n3 & m3 & St3 & Fr3 & MI3 & Hip3 & V3 & G3).
+    pose proof (code_in_ext _ _ _ _ Hc2 (fr_ext _ _ Fr3)) as Hc3.
+    pose proof (step_jmp ob m3 lp _ bc Y Hc3 Hip3 Hsm) as E4.
+    set (m4 := with_ip m3 (lp, Y)) in *.
+    assert (SM4 : same_mem m3 m4) by (repeat split).
+    exists (n1 + 1 + n3 + 1)%nat, m4.
+    split; [eapply steps_trans; [eapply steps_trans; [eapply steps_trans; [exact St1|apply steps_one; exact E2]|exact St3]|apply steps_one; exact E4]|].
+    split; [eapply frame_trans; [eapply frame_trans; eassumption|apply same_mem_frame; exact SM4]|].
+    split; [eapply same_mem_minv; eassumption|].
+    split; [cbn [ip m4 with_ip]; f_equal; lens; lia|].
+    split; [exact V3|]. eapply genv_rel_frame; [apply same_mem_frame; exact SM4|reflexivity|exact G3].
+Qed.
+
+Lemma cok_if c a b : compile_ok c -> compile_ok a -> compile_ok b -> compile_ok (EIf c a b).
+Proof.
+  intros IHc IHa IHb f l tail s Hf Ht MI. destruct f as [|f]; [lia|].
+  cbn [cell_of] in *. cbn [cell_size] in Hf. rewrite compile_if3_eq.
+  destruct (IHc f l false s ltac:(lia) Ht MI) as (l1 & s1 & cc & E1 & F1 & S1 & MI1 & X1 & EX1).
+  set (l3 := emit (emit_op l1 OJnt) (VPtr CAFEBEEF)).
+  assert (S3 : same_hdr l l3) by (eapply same_hdr_trans; [exact S1|repeat split]).
+  destruct (IHa f l3 tail s1 ltac:(lia) (top_hdr_same _ _ S3 Ht) MI1) as (l4 & s2 & ca & E4 & F4 & S4 & MI2 & X2 & EX4).
+  destruct (if_layout l l1 l4 cc ca F1 F4) as [L6 F7].
+  set (l6 := emit (emit_op l4 OJmp) (VPtr CAFEBEEF)) in *.
+  set (l7 := bc_patch l6 (bc_len (emit_op l1 OJnt)) (VPtr (bc_len l6))) in *.
+  assert (S7 : same_hdr l l7).
+  { eapply same_hdr_trans; [exact S3|]. eapply same_hdr_trans; [exact S4|]. repeat split. }
+  destruct (IHb f l7 tail s2 ltac:(lia) (top_hdr_same _ _ S7 Ht) MI2) as (l8 & s3 & cb & E8 & F8 & S8 & MI3 & X3 & EX8).
+  set (p := len (fwd l)) in *.
+  assert (L7 : len (fwd l7) = bc_len l6).
+  { rewrite F7, L6. lens. fold p. lia. }
+  assert (L3 : len (fwd l3) = p + len cc + 2).
+  { unfold l3. rewrite fwd_emit, fwd_emit_op, F1. lens. fold p. lia. }
+  assert (L8 : bc_len l8 = bc_len l6 + len cb) by (rewrite (bc_len_fwd l8), F8, len_app, L7; reflexivity).
+  exists (bc_patch l8 (bc_len (emit_op l4 OJmp)) (VPtr (bc_len l8))), s3,
+         (cc ++ [VOp OJnt; VPtr (bc_len l6)] ++ ca ++ [VOp OJmp; VPtr (bc_len l8)] ++ cb).
+  unfold bindM at 1. rewrite E1. unfold bindM at 1. fold l3. rewrite E4. unfold bindM at 1. fold l6 l7. rewrite E8.
+  split; [reflexivity|]. split.
+  { rewrite (if_final l8 l4 (fwd l ++ cc ++ [VOp OJnt; VPtr (bc_len l6)] ++ ca) cb).
+    - rewrite <- !app_assoc. reflexivity.
+    - rewrite F8, F7, <- !app_assoc. reflexivity.
+    - rewrite bc_len_fwd, fwd_emit_op, F4. lens. rewrite L3. lens. fold p. lia. }
+  split; [eapply same_hdr_trans; [exact S7|]; eapply same_hdr_trans; [exact S8|repeat split]|].
+  split; [exact MI3|].
+  assert (X23 : cext s2 s3) by exact X3.
+  assert (X13 : cext s1 s3) by (eapply cext_trans; eassumption).
+  split; [eapply cext_trans; eassumption|].
+  assert (Hexec : forall s' q code rho r rho', cext s' s3 -> exec_ok s' q code rho r rho' -> exec_ok s3 q code rho r rho').
+  { intros s' q code rho r rho' Xs EX m lp bc Xm. apply EX. eapply cext_trans; eassumption. }
+  intros rho r rho' HR. inversion HR; subst.
+  - apply (exec_if s3 p cc ca cb _ _ rho rc rho1 r rho' false L6 L8).
+    + apply (Hexec s1); [exact X13|]. apply EX1. assumption.
+    + assumption.
+    + cbv iota. rewrite <- L3. apply (Hexec s2); [exact X23|]. apply EX4. assumption.
+  - apply (exec_if s3 p cc ca cb _ _ rho rc rho1 r rho' true L6 L8).
+    + apply (Hexec s1); [exact X13|]. apply EX1. assumption.
+    + assumption.
+    + cbv iota. rewrite <- L7. apply (Hexec s3); [apply cext_refl|]. apply EX8. assumption.
 Qed.
